@@ -204,6 +204,8 @@ def narrow_features(comp, extra=()):
                 f.add(d.tag)
             if isinstance(d, D.Struct) and d.bytesize is not None:
                 f.add("byte-size")
+            if isinstance(d, D.DtcDop):
+                f.update(D.dtc_sources(d))
             if isinstance(d, (D.SimpleDop, D.DtcDop)):
                 _dct_feats(d.dct, f)
                 if d.compu.tag != "identical":
@@ -534,8 +536,19 @@ def c03_failing(clause, observed, seeds=6):
     return f
 
 
-def c03_check(ctx, rep, corr, comp, obj, pdu, trig, family, shrinkable=True, fixed_features=None, what=None):
+_NO_EXPECTATION = object()
+
+
+def c03_check(ctx, rep, corr, comp, obj, pdu, trig, family, shrinkable=True, fixed_features=None, what=None, placed=_NO_EXPECTATION):
+    """placed: the value tree whose wire form `pdu` is (reference-built PDUs): decode must return exactly it (clause wire-decode)"""
     r, dec, enc = c03_eval(comp, obj, pdu, trig)
+    if placed is not _NO_EXPECTATION:
+        if dec.ok and V.norm(dec.value) != V.norm(placed):
+            rep.report("wire-decode", "different-values", comp, None, trig,
+                       {"pdu": bytes(pdu).hex(), "decoded": V.jsonable(dec.value), "placed": V.jsonable(placed)}, extra_features=["reference-pdu"])
+        elif not dec.ok:
+            rep.report("wire-decode", dec.status, comp, None, trig, {"pdu": bytes(pdu).hex(), "placed": V.jsonable(placed), "error": dec.msg},
+                       extra_features=["reference-pdu"])
     ctx.case((sexp.composite(comp), bytes(pdu), trig), nontrivial=dec.ok and len(pdu) > 1)
     ctx.count("c03_" + ("undecodable:" + dec.status if not dec.ok else "reencodes" if r is None else "fails"))
     if corr is not None:
@@ -561,6 +574,9 @@ def wire_pdus(rng, comp, exhaustive_bits=8, samples=12, cap=600, cap_all=False, 
 
     def cands(s):
         m = s.mask
+        if isinstance(s.dop, D.DtcDop):
+            # every described trouble code (own, DTC-REF, inherited through LINKED-DTC-DOPS), whatever the width of the coded type
+            return sorted({c for c, _ in D.effective_dtcs(s.dop) if 0 <= c < (1 << s.n)})
         if s.n <= exhaustive_bits:
             return [r for r in range(1 << s.n) if r & ~m == 0]
         out = {0, 1, m, m >> 1, (m >> 1) + 1, 1 << (s.n - 1), (1 << s.n) - 1 & m}
